@@ -352,7 +352,7 @@ func runC17_3(c *core.Ctx) {
 				continue
 			}
 		}
-		site := core.SSAName(fa.Fn)
+		site := core.SSAHostName(fa.Fn)
 		c.Check(allowed[site], site, "write of "+label, fa.Pos, "set at construction, cleared at release", label+" is written outside the constructors and release: the address reported for a live connection can change")
 	}
 }
